@@ -296,6 +296,16 @@ func drawRequest(w *simrt.Tape) (*request, string) {
 		return &request{Parameters: []reqValue{{"x", 1}}}, "no-name"
 	case 19:
 		return nonFiniteRequest(w.Choose(3)), "non-finite"
+	case 16:
+		if w.Bool(50) {
+			// a size-like parameter with a negative value: the run cannot even be set up (the state
+			// vector cannot be allocated); the answer is one document that says so
+			v := -float64(1 + w.Choose(5))
+			if w.Bool(50) {
+				return &request{Name: "Lag", Parameters: []reqValue{{"timeLag", v}}, Inputs: []reqInput{{"inflow", []float64{1, 2, 3}}}}, "cannot-be-set-up"
+			}
+			return &request{Name: "GR4J", Parameters: []reqValue{{"X1", 300}, {"X2", 1}, {"X3", 40}, {"X4", 10 * v}}, Inputs: []reqInput{{"rainfall", []float64{1, 2, 3}}, {"pet", []float64{1, 1, 1}}}}, "cannot-be-set-up"
+		}
 	}
 	name := names[w.Choose(len(names))]
 	desc := sim.Catalog[name]().Description()
